@@ -7,8 +7,6 @@ single-bit flip of nonce, AAD, ciphertext and tag, EVERY proper prefix of the ci
 streaming interfaces, of the whole C||T stream) and one-byte extensions are offered to the decryptor, which
 must report failure each time.  No reference model is involved: the oracle is "must fail" / "must succeed".
 """
-import ctypes
-
 from . import c04 as h
 
 LEVEL = 'fault_enumeration'
@@ -33,9 +31,9 @@ def plan(tier, seed):
         'sm4-gcm': (8, 60, 3) if quick else (16, 64, 3),
         'aes-gcm': (8, 60, 3) if quick else (16, 64, 3),
         'sm4-ccm': (8, 60, 2) if quick else (16, 64, 2),
-        'sm4-gcm-stream': (16, 6, 5) if quick else (32, 16, 14),
-        'sm4-cbc-sm3-hmac': (16, 5, 10) if quick else (32, 16, 32),
-        'sm4-ctr-sm3-hmac': (16, 5, 7) if quick else (32, 16, 22),
+        'sm4-gcm-stream': (16, 4, 4) if quick else (32, 16, 14),
+        'sm4-cbc-sm3-hmac': (16, 3, 6) if quick else (32, 16, 32),
+        'sm4-ctr-sm3-hmac': (16, 4, 6) if quick else (32, 16, 22),
     }
     units = []
     for c in CONSTRUCTIONS:
@@ -44,7 +42,7 @@ def plan(tier, seed):
             units.append({'kind': c, 'flavour': 'asan', 'lo': s, 'step': slices, 'cases': per, 'weight': w})
     # streaming GCM with tags shorter than 16 bytes fed in pieces longer than the tag (kept apart: see C04)
     for t in (12, 13, 14, 15):
-        units.append({'kind': 'sm4-gcm-stream', 'flavour': 'asan', 'lo': t - 12, 'step': 4, 'cases': 6 if quick else 24,
+        units.append({'kind': 'sm4-gcm-stream', 'flavour': 'asan', 'lo': t - 12, 'step': 4, 'cases': 4 if quick else 24,
                       'weight': 5, 'force_taglen': t, 'large_pieces': True})
     return units
 
